@@ -6,6 +6,7 @@ import (
 	"encoding/json"
 	"fmt"
 	"os"
+	"reflect"
 	"sort"
 	"strings"
 	"testing"
@@ -152,6 +153,7 @@ func ExploreScenario(t *testing.T, s *Scenario, o HOpts, c *Collector) {
 		}
 	}
 	var cur *Hist
+	audit := 0
 	// the per-slot hook does state bookkeeping and pruning
 	orig := s.Init
 	s2 := *s
@@ -201,6 +203,19 @@ func ExploreScenario(t *testing.T, s *Scenario, o HOpts, c *Collector) {
 			}
 		}
 		c.Outcome(outcomeKey(h))
+		// determinism audit: every 101st execution is run a second time from its recorded choices on a
+		// fresh world and controller; the two traces (every call, answer and decision) must be identical
+		audit++
+		if audit%101 == 0 {
+			var again *Hist
+			ex2 := &explore.Explorer{Bound: 1 << 30}
+			ex2.Exec = func(ch2 *explore.Chooser) { Run(t, s, ch2, func(h2 *Hist) { again = h2 }) }
+			ex2.RunPrefix(explore.Choices(runOf(ch)))
+			c.R.Cov["determinism_rechecks"]++
+			if again == nil || !reflect.DeepEqual(again.Trace, h.Trace) {
+				panic(fmt.Sprintf("non-deterministic execution in %s (choices %v): the same choices gave a different trace", s.Name, explore.Choices(runOf(ch))))
+			}
+		}
 		for _, v := range h.Viol {
 			r := runOf(ch)
 			c.Report(Found{Violation: v, Scenario: s.Name, Choices: explore.Choices(r), Devs: ch.Spent(), Trace: append([]string(nil), h.Trace...)})
